@@ -140,6 +140,17 @@ struct BmpStream : Family {
 		std::vector<uint8_t> w1;
 		if (wb == "path") {
 			bool viaRvalue = plan.seed & 1; // WriteIndexed(Writer&&) with a temporary file writer, or the filename overload
+			if (mix64(plan.seed, 0xd1f) % 2 == 0) {
+				// failure, then success: first ANOTHER valid bitmap is written by name to a destination that cannot be opened (a directory);
+				// whatever that attempt does, the write that follows must produce its own bitmap
+				BitmapFile other = bf;
+				for (auto& px : other.pixels) px = static_cast<uint8_t>(~px);
+				disk::mkdirs("_w/adir/_s");
+				std::string fw;
+				Out fo = callLib(plan, [&] { other.WriteIndexed(std::string("_w/adir")); }, &fw);
+				if (fo == ErrOther) ctx.fail("C08.roundtrip", "WriteIndexed(filename) onto a directory failed with something that is not a std::exception");
+				ctx.count(fo == OkOut ? "probe.write_onto_directory_reported_success" : "fault.write_to_unopenable_destination_before_the_real_write");
+			}
 			o = callLib(plan, [&] { if (viaRvalue) bf.WriteIndexed(Stream::FileWriter("_w/p1.bmp")); else bf.WriteIndexed(std::string("_w/p1.bmp")); }, &what);
 			if (o != OkOut) ctx.fail("C08.roundtrip", "WriteIndexed(filename) of a bitmap the reader returned failed: " + what);
 			if (!disk::get("_w/p1.bmp", w1)) ctx.fail("C08.roundtrip", "WriteIndexed(filename) left no file");
@@ -520,6 +531,14 @@ struct PrtStream : Family {
 		std::vector<uint8_t> before = dumpArt(art);
 		std::vector<uint8_t> w1;
 		if (wb == "path") {
+			if (mix64(plan.seed, 0xd1f) % 2 == 0) {
+				// failure, then success: another structure is first written by name onto a directory
+				disk::mkdirs("_w/adir/_s");
+				std::string fw;
+				Out fo = callLib(plan, [&] { ArtFile other; other.Write(std::string("_w/adir")); }, &fw);
+				if (fo == ErrOther) ctx.fail("C10.byte-stable", "ArtFile::Write(filename) onto a directory failed with something that is not a std::exception");
+				ctx.count("fault.write_to_unopenable_destination_before_the_real_write");
+			}
 			o = callLib(plan, [&] { art.Write(std::string("_w/p1.prt")); }, &what);
 			if (o != OkOut || !disk::get("_w/p1.prt", w1)) ctx.fail("C10.byte-stable", "ArtFile::Write(filename) failed: " + what);
 		} else w1 = writeVia(plan, ctx, wb, "w1", "C10.byte-stable", [&](Stream::Writer& w) { art.Write(w); });
